@@ -194,7 +194,7 @@ func RunSessionOpts(sc *Scenario, st map[string]*Station, r *Recorder, configure
 		}
 		var conn net.Conn = l.End(name)
 		if tx {
-			conn = &txEnd{End: l.End(name)}
+			conn = &txEnd{End: l.End(name), rate: 1500}
 		}
 		go func() {
 			var rt ret
